@@ -1744,3 +1744,39 @@ func init() {
 		return p
 	}
 }
+
+func init() {
+	// "c11lock": family c11 with goroutines parked inside critical sections (pure reorderings: a
+	// nested lock acquisition or release under the election mutex is a point at which goroutines
+	// that do not need that mutex - the connection notifications' handlers - get their turn), and
+	// disconnect notifications that arrive at the very instant one of the instance's reads is
+	// answered: e.g. between the reconnect verification's look at the connection status and its
+	// update of it.
+	families["c11lock"] = func(r *Rng) *Plan {
+		p := families["c11"](r)
+		p.Judge = []string{"C11"}
+		p.Sched = SchedCfg{YieldProb: Pick(r, []float64{0.3, 0.6}), StallMax: 0, InLock: Pick(r, []float64{0.3, 0.6})}
+		for i := range p.Insts {
+			// the leadership flag is polled (at every park inside a critical section and every lock
+			// release): a Metrics observer would report a change only where the library calls it,
+			// which may be after the point at which the goroutine is parked
+			p.Insts[i].NoMetrics = true
+		}
+		// reconnects (each starts a verification: 100 ms, a read, the validation read), each followed
+		// by a disconnect at the answer of one of the next reads
+		nGet := 0
+		for k := 0; k < 2+r.Intn(4); k++ {
+			nGet += 1 + r.Intn(4)
+			p.Actions = append(p.Actions, Action{Kind: ADisconnect, Inst: 0, OpN: nGet, OpKind: "get", Phase: "return"})
+		}
+		t := r.Dur(2*p.H, 8*p.H)
+		for k := 0; k < 1+r.Intn(3); k++ {
+			p.Actions = append(p.Actions, Action{At: t, Kind: AReconnect, Inst: 0})
+			t += r.Dur(200*ms, 3*p.H+sec)
+		}
+		if p.Until < t+graceOf(p, p.Insts[0])+3*sec {
+			p.Until = t + graceOf(p, p.Insts[0]) + 3*sec
+		}
+		return p
+	}
+}
